@@ -31,6 +31,9 @@ def correspondence(ctx):
                 samples=[[list(map(str, e)) for e in hs[-1]['events'][:14]]], disagreements=out)
 
 
+import math as _m
+_A = _m.pi - 10.5 * (_m.pi / 63)          # half way between the 10th and the 11th sample of G2 X70 Y50 I20 J0 from (30,50)
+SLIVER = dict(type='RectangularRegion', id='d2', x1=50 + 20 * _m.cos(_A) - 0.15, y1=50 + 20 * _m.sin(_A) - 0.15, x2=50 + 20 * _m.cos(_A) + 0.15, y2=50 + 20 * _m.sin(_A) + 0.15)
 REGION = dict(type='RectangularRegion', id='d1', x1=10.0 + 1.0 / 2048, y1=10.0 + 1.0 / 2048, x2=20.0 + 1.0 / 2048, y2=20.0 + 1.0 / 2048)
 
 
@@ -43,8 +46,10 @@ def designed_history(rng):
     if rng.random() < 0.7 and not st['exit']:
         st['exit'] = ['M117 out']; st.pop('exit_text', None)
     st0 = dict(st)
-    evs = [('api', 'addExcludeRegion', dict(REGION), False), ('event', 'PRINT_STARTED'), ('cmd', 'G28'), ('cmd', 'G1 X5 Y5 Z0.3 E1 F3000')]
-    dirty = rng.sample(['wipe-entry', 'owed', 'inch', 'relative', 'disabled', 'deferred', 'plain-entry', 'fw', 'two-episodes', 'g92', 'settings'], rng.randint(1, 4))
+    evs = [('api', 'addExcludeRegion', dict(REGION), False), ('api', 'addExcludeRegion', dict(SLIVER), False), ('event', 'PRINT_STARTED'), ('cmd', 'G28'), ('cmd', 'G1 X5 Y5 Z0.3 E1 F3000')]
+    dirty = rng.sample(['wipe-entry', 'owed', 'inch', 'relative', 'disabled', 'deferred', 'plain-entry', 'fw', 'two-episodes', 'g92', 'settings', 'm206'], rng.randint(1, 4))
+    if rng.random() < 0.25:
+        dirty.append('entry-last')        # the print is aborted on the very command that entered a region (or only @-commands follow it)
     for d in dirty:
         if d == 'wipe-entry':
             evs += [('cmd', 'G1 X15 Y15 E0.2'), ('cmd', 'G1 X16 Y16 E0.5'), ('cmd', 'G1 X30 Y30 E1'), ('cmd', 'G1 X5 Y5 E1.5')]
@@ -74,10 +79,21 @@ def designed_history(rng):
             st = st2
         elif d == 'g92':
             evs += [('cmd', 'G92 E0'), ('cmd', 'G1 F1234')]
+        elif d == 'm206':
+            evs += [('cmd', rng.choice(['M206 X-8 Y-8', 'M206 X-8 Y-8 Z1', 'M206 Y9']))]
+        elif d == 'entry-last':
+            evs += [('cmd', 'G90'), ('cmd', 'G21'), ('cmd', 'G1 X40 Y40 F3000'), ('cmd', 'G1 X15 Y15 E2')] + rng.choice([[], [('at', '@ExcludeRegion off', False)], [('at', '@pause', False)]])
     evs += rng.choice([[], [('event', 'PRINT_CANCELLED')], [('event', 'PRINT_FAILED')], [('script', 'gcode', 'afterPrintDone'), ('event', 'PRINT_DONE')], [('event', 'ERROR')]])
     tail = [('cmd', 'G28'), ('cmd', rng.choice(['G1 X5 Y5 Z0.3 E1 F3000', 'G1 X5 Y5 Z0.3 E1'])), ('cmd', 'M204 S500'), ('cmd', 'G1 X15 Y15 E0.5'), ('cmd', 'M204 S700'), ('cmd', 'G4 P100'), ('cmd', 'M117 tail'), ('cmd', 'M73 P9'), ('cmd', 'G1 X16 Y16 E2'),
             ('cmd', 'G1 X30 Y30 E3'), ('cmd', 'G1 E2'), ('cmd', 'G1 X15 Y15'), ('cmd', 'G1 E3'), ('cmd', 'G1 X40 Y40'), ('cmd', 'G1 X41 Y41 E4'),
             ('cmd', 'G10'), ('cmd', 'G1 X12 Y12'), ('cmd', 'G11'), ('cmd', 'G1 X50 Y50 E5'), ('script', 'gcode', 'afterPrintDone')]
+    k = rng.random()
+    if k < 0.2:
+        # the next job sends nothing before its clean-up script runs (SD print, empty file): nothing may be left to clean up
+        tail = [('script', 'gcode', 'afterPrintDone'), ('script', 'gcode', 'afterPrintDone')] + tail
+    elif k < 0.5:
+        # arcs sampled at the stated resolution: a sliver of a region lying between two sample points is not noticed -- by either plugin
+        tail = tail[:2] + [('cmd', 'G1 X30 Y50'), ('cmd', 'G2 X70 Y50 I20 J0 E1.5'), ('cmd', 'G3 X30 Y50 I-20 J0 E2'), ('cmd', 'G1 X5 Y5')] + tail[2:]
     return dict(settings=st0, events=evs, tail=tail)
 
 
